@@ -838,6 +838,16 @@ func genFacts(p *pkgInfo) string {
 		leanStr(rf.LookupKey), leanStr(rf.CompileArg), leanStr(rf.InsertKey), leanStr(rf.TestKey), leanStr(rf.StoreArg),
 		leanBool(rf.LockPresent), leanBool(rf.UnlockDeferred), leanBool(rf.LoadAfterLock), leanBool(rf.OnlyFreshWritten), leanBool(rf.CopiesOld),
 		leanStr(rf.MustLookupKey), leanStr(rf.MustCompileArg))
+	b.WriteString("/-- the schema handed to every newSchemaValidator call: (calling function, first argument) -/\ndef schemaValidatorArgs : List (String × String) := [\n")
+	svas := schemaValidatorArgs(p)
+	for i, v := range svas {
+		fmt.Fprintf(&b, "  (%s, %s)", leanStr(v[0]), leanStr(v[1]))
+		if i < len(svas)-1 {
+			b.WriteString(",")
+		}
+		b.WriteString("\n")
+	}
+	b.WriteString("]\n\n")
 	b.WriteString("/-- every package-level variable of package validate: (file, name) -/\ndef packageVars : List (String × String) := [\n")
 	pvs := packageVars(p)
 	for i, v := range pvs {
@@ -1234,6 +1244,30 @@ func specOptionsOrigin(p *pkgInfo) string {
 		return true
 	})
 	return origin
+}
+
+// schemaValidatorArgs: the schema handed to every newSchemaValidator call: (calling function, source text of the first argument)
+func schemaValidatorArgs(p *pkgInfo) [][2]string {
+	var out [][2]string
+	fns := p.funcs()
+	keys := make([]string, 0, len(fns))
+	for k := range fns {
+		keys = append(keys, k)
+	}
+	sort.Strings(keys)
+	for _, k := range keys {
+		fd := fns[k]
+		if fd.Body == nil {
+			continue
+		}
+		ast.Inspect(fd.Body, func(n ast.Node) bool {
+			if c, ok := n.(*ast.CallExpr); ok && callName(c) == "newSchemaValidator" && len(c.Args) > 0 {
+				out = append(out, [2]string{k, p.src(c.Args[0])})
+			}
+			return true
+		})
+	}
+	return out
 }
 
 // packageVars: every package-level variable of the package (file, name): the inventory of process-wide state
